@@ -848,6 +848,180 @@ async def _(mpc):
     return _ints(await mpc.output(2 ** secint.array(np.array([0, 1, 5]))))
 
 
+@case('C37', 'np.block / np_update / np.outer / @ / np.convolve of a secure fixed-point array with PUBLIC operands', '70fd347', numpy=True,
+      expected=[[0.5, -1.0, 1.0, -2.0], [0.5, 9.0], [3.0, -1.0], [1.0, 1.5], [[1.0, -0.5], [-2.0, 1.0]], [[0.25, -0.5], [-0.75, 1.5]],
+                0.5, [0.5, -0.5, -1.0]], tol=2 ** -14)
+async def _(mpc):
+    S = mpc.SecFxp(32, 16)
+    xv = np.array([[0.5, -1.0], [2.0, 3.25]])
+    x = S.array(xv)
+    xi = S.array(np.array([1.0, -1.0]))
+
+    async def o(v):
+        return np.asarray(await mpc.output(v), dtype=float).tolist()
+    r = [(await o(np.block([x, np.array([[1, -2], [3, 4]])])))[0],                      # 70fd347
+         (await o(mpc.np_update(mpc.np_copy(x), (0, 1), 9)))[0],                         # 817bd38
+         (await o(mpc.np_update(mpc.np_copy(x), 0, np.array([3, -1]))))[0],
+         await o(mpc.np_update(mpc.np_copy(xi), 1, 1.5)),
+         await o(np.outer(x[0], np.array([2, -1]))),                                     # 6b9534e
+         await o(np.outer(np.array([0.5, -1.5]), x[0])),
+         float(await mpc.output(x[0] @ np.array([True, False]))),                        # 4bf8830
+         await o(np.convolve(x[0], np.array([True, True])))]
+    return r
+
+
+@case('C37', 'public float vector @ secure fixed-point vector, 3 parties', '214a6af', cfg=(3, 1, False), numpy=True, expected=[-3.75, -3.75],
+      tol=2 ** -14)
+async def _(mpc):
+    S = mpc.SecFxp(32, 16)
+    a = S.array(np.array([1.5, -2.25]))
+    w = np.array([0.5, 2.0])
+    return [float(await mpc.output(w @ a)), float(await mpc.output(a @ w))]
+
+
+@case('C37', 'np.hsplit of a 1D array; np.roll with tuple / np.int64 shifts', '4c3c27f', numpy=True,
+      expected=[[[0, 1, 2], [3, 4, 5]], [5, 0, 1, 2, 3, 4], [[10, 11, 8, 9], [2, 3, 0, 1], [6, 7, 4, 5]]])
+async def _(mpc):
+    T = mpc.SecInt(16)
+    v = T.array(np.arange(6))
+    a = T.array(np.arange(12).reshape(3, 4))
+    return [[(await mpc.output(p)).tolist() for p in np.hsplit(v, 2)], (await mpc.output(np.roll(v, np.int64(1)))).tolist(),
+            (await mpc.output(np.roll(a, (1, 2), axis=(0, 1)))).tolist()]
+
+
+@case('C31', 'count / contains of an empty seclist are secure values', '8cfd064', cfg=(3, 1, False), expected=[True, 0, 0])
+async def _(mpc):
+    from mpyc.seclists import seclist
+    secint = mpc.SecInt(16)
+    e = seclist([], secint)
+    r = [e.count(5), e.contains(5)]
+    return [all(isinstance(v, mpc.SecureObject) for v in r)] + _ints(await mpc.output(r))
+
+
+@case('C31', 'secret unit-vector index given as seclist / tuple in get, set, del, pop, insert', '63574c9', cfg=(3, 1, False),
+      expected=[12, 12, [10, 11, 5, 13], [10, 11, 13], 12, [10, 11, 13], [10, 5, 11, 13]])
+async def _(mpc):
+    from mpyc.seclists import seclist
+    secint = mpc.SecInt(16)
+    s = seclist([10, 11, 12, 13], secint)
+    u = seclist([0] * 4, secint)
+    u[secint(2)] = 1
+    out = [int(await mpc.output(s[u])), int(await mpc.output(s[tuple(u)]))]
+    s[u] = 5
+    out.append(_ints(await mpc.output(list(s))))
+    del s[tuple(u)]
+    out.append(_ints(await mpc.output(list(s))))
+    s = seclist([10, 11, 12, 13], secint)
+    v = s.pop(u)
+    out += [int(await mpc.output(v)), _ints(await mpc.output(list(s)))]
+    u5 = seclist([0] * 4, secint)
+    u5[secint(1)] = 1
+    s.insert(tuple(u5), 5)
+    out.append(_ints(await mpc.output(list(s))))
+    return out
+
+
+@case('C34', 'mean of 2^(f+1) and more secure fixed-point numbers', '89f0e22', expected=[1.5, 2.0, 3.0], tol=2 ** -7)
+async def _(mpc):
+    from mpyc import statistics as S
+    F, G = mpc.SecFxp(16, 8), mpc.SecFxp(8, 4)
+    return [float(await mpc.output(S.mean([F(1.5)] * 512))), float(await mpc.output(S.mean([G(2.0)] * 32))),
+            float(await mpc.output(S.mean([F(3.0)] * 1000)))]
+
+
+@case('C34', 'variance / pvariance / stdev with a public float xbar / mu', 'a863b45', expected=[12.6667, 11.75, 3.559], tol=2 ** -10)
+async def _(mpc):
+    from mpyc import statistics as S
+    F = mpc.SecFxp(32, 16)
+    x = [F(1), F(2), F(4), F(9)]
+    return [float(await mpc.output(S.variance(x, 4.0))), float(await mpc.output(S.pvariance(x, 2.5))),
+            float(await mpc.output(S.stdev(x, 4.0)))]
+
+
+@case('C05', 'the default SecFlt(8) (s-1 > 2^e): sums and comparisons of nearby exponents', '1c40c3c',
+      expected=[1.0, 0.875, 0.0, 1.0, 1.0, 0.0])
+async def _(mpc):
+    T = mpc.SecFlt(8)
+    r = [T(0.5) + T(0.5), T(0.5) + T(0.375), T(0.5) - T(0.5), T(0.375) < T(0.5), T(0.75) == T(0.75), T(0.5) < T(0.375)]
+    return [float(v) for v in await mpc.output(r)]
+
+
+@case('C05', 'SecFlt(s=24, e=4): 1.0 + 1.0, 1.5 + 1.25, 3 parties', '1c40c3c', cfg=(3, 1, False), expected=[2.0, 2.75, 1.0])
+async def _(mpc):
+    T = mpc.SecFlt(s=24, e=4)
+    return [float(v) for v in await mpc.output([T(1.0) + T(1.0), T(1.5) + T(1.25), T(1.25) < T(1.5)])]
+
+
+@open_case('C08', 'C08-barrier-inside-coroutine', 'await mpc.barrier() inside an MPyC coroutine whose result is awaited by a sibling',
+           expected=27, max_steps=40_000)
+async def _(mpc):
+    secint = mpc.SecInt(16)
+
+    @mpc.coroutine
+    async def cube(x):
+        await mpc.returnType(type(x))
+        y = x * x
+        await mpc.barrier()
+        return y * x
+    return int(await mpc.output(cube(secint(3))))
+
+
+@open_case('C09', 'C09-transfer-dict-duplicate-receiver', 'transfer with sender_receivers={0: [1, 1], 1: [], 2: []}', cfg=(3, 1, False),
+           expected=[0, 1, 0], max_steps=200_000)
+async def _(mpc):
+    r = await mpc.transfer('hi', sender_receivers={0: [1, 1], 1: [], 2: []})
+    return await mpc.transfer(len(r))
+
+
+@open_case('C37', 'C37-item-shape-bool-mask', 'a[0, :, mask2d]: declared shape of the placeholder vs shape of the value', numpy=True,
+           expected=[[2, 3], [2, 3]])
+async def _(mpc):
+    T = mpc.SecInt(16)
+    c = T.array(np.arange(120).reshape(2, 3, 4, 5))
+    m45 = np.zeros((4, 5), dtype=bool)
+    m45[1, 2] = m45[3, 0] = True
+    r = c[0, :, m45]
+    return [list(r.shape), list((await mpc.output(r)).shape)]
+
+
+@open_case('C31', 'C31-secindex-await', 'await secindex(unit vector of secure integers)', expected=2)
+async def _(mpc):
+    from mpyc.seclists import secindex
+    secint = mpc.SecInt(16)
+    return int(await secindex([secint(0), secint(0), secint(1), secint(0)]))
+
+
+@open_case('C34', 'C34-public-count-reciprocal', 'mean of three equal fixed-point numbers 20000.0 within 16 units (division by a public count)',
+           expected=True)
+async def _(mpc):
+    from mpyc import statistics as S
+    F = mpc.SecFxp(32, 16)
+    return abs(float(await mpc.output(S.mean([F(20000.0)] * 3))) - 20000.0) <= 16 * 2 ** -16
+
+
+@open_case('C29', 'C29-secflt-rows', 'sorted rows of secure floats by their first entry', expected=[[1.0, 20.0], [3.0, 10.0]])
+async def _(mpc):
+    T = mpc.SecFlt(32)
+    rows = [[T(3.0), T(10.0)], [T(1.0), T(20.0)]]
+    r = mpc.sorted(rows, key=lambda r_: r_[0])
+    return [[float(await mpc.output(v)) for v in row] for row in r]
+
+
+@open_case('C29', 'C29-secflt-public-operand', 'min of a secure float and a public float', expected=1.0)
+async def _(mpc):
+    T = mpc.SecFlt(32)
+    return float(await mpc.output(mpc.min(T(1e8), 1.0)))
+
+
+@open_case('C37', 'C37-object-dtype-public-factor', 'secure fixed-point array times a public int array of dtype object', numpy=True,
+           expected=[3.0, -6.75])
+async def _(mpc):
+    S = mpc.SecFxp(32, 16)
+    a = S.array(np.array([1.5, -2.25]))
+    counts = await mpc.output(mpc.SecInt(16).array(np.array([2, 3])))       # revealed secure integers: dtype object
+    return [float(v) for v in await mpc.output(a * np.asarray(counts, dtype=object))]
+
+
 # ---------------------------------------------------------------------------------------------------- driver
 def _close(a, b, tol):
     if isinstance(a, (list, tuple)) and isinstance(b, (list, tuple)):
